@@ -747,6 +747,17 @@ func (p *Path) mapSet(fr *frame, m *MapV, k, v Value, pos token.Pos) {
 		return
 	}
 	ne := append([]MapEntry(nil), m.E...)
+	// a conditional entry with this very key that does not exist on this path (mapFind just decided so) is
+	// reused: a map never holds two entries with one key
+	for j := range ne {
+		if ne[j].Cond != nil {
+			if c := p.eqValue(ne[j].K, k); c.c && c.u != 0 {
+				ne[j].V, ne[j].Cond = v, nil
+				m.E = ne
+				return
+			}
+		}
+	}
 	m.E = append(ne, MapEntry{K: k, V: v})
 }
 
@@ -882,7 +893,7 @@ func (p *Path) nextIter(fr *frame, itv Value, in *ssa.Next) Value {
 			c := p.eqValue(it.m.E[i].K, k)
 			if c.c && c.u != 0 {
 				if cd := it.m.E[i].Cond; cd != nil && !p.forkBool(cd, fr, in.Pos()) {
-					break // the entry does not exist on this path
+					continue // this entry does not exist on this path (another entry may carry the key)
 				}
 				return TupleV{tTrue, k, it.m.E[i].V}
 			}
